@@ -169,6 +169,18 @@ Definition dispatch (cmd : string) (args : list sexp) : option sexp :=
       | Some self, Some others, Some out, Some (o, d, con, cwd), Some ns =>
           Some (enc_outcome (st_apply (test_fn ns cwd) o d con self others out))
       | _, _, _, _, _ => None end
+  | "run-writes", [ops; d0] =>
+      let dec_pv := dec_pair (dec_list dec_str) dec_Z in
+      match dec_list dec_pv ops, dec_list dec_pv d0 with
+      | Some ops, Some d0 =>
+          Some (enc_list (enc_pair (enc_list enc_str) enc_Z) (run_writes ops d0))
+      | _, _ => None end
+  | "run-assign", [ws; storage] =>
+      match dec_list (dec_pair dec_nat (dec_list dec_Z)) ws, dec_list dec_Z storage with
+      | Some ws, Some st => Some (enc_list enc_Z (run_assign ws st))
+      | _, _ => None end
+  | "offsets", [sizes] =>
+      match dec_list dec_nat sizes with Some sz => Some (enc_list enc_nat (offsets_from 0 sz)) | None => None end
   | "ntasks", [self; con] =>
       match dec_forest_top self, dec_bool con with
       | Some self, Some con => Some (enc_nat (ntasks con self)) | _, _ => None end
